@@ -37,10 +37,10 @@ claim("C08", "exploration", MON + "invocation-unique handler results; responses 
       "Each handler invocation returns a value unique to the invocation, so every written response identifies the invocation that produced it; duplicates of ids certainly in flight must not be offered, everything else read must be offered exactly once or throttled, at most one response per request and only after its handler finished and before cancel/expiry/abandon.",
       "scenarios in which an id is reused after cancellation/expiry/abandonment (outside the property's quantifier) are not judged", "DESIGN.md 4/C08, 5.3")
 claim("C09", "fault_enumeration", MON + "fault injection at the k-th call of every transport method, enumerated from a fault-free counting run, with outcome oracles",
-      "For each base scenario every (operation, k) is enumerated and the run repeated with that single fault (and end-of-stream at every read); the dispatch output / stream item must name the activity, every outstanding call must resolve with a connection error, later calls must fail fast, a failed request write fails only its call, handlers must not outlive the dropped channel, nothing may panic.",
+      "For each base scenario every (operation, k) is enumerated and the run repeated with that single fault (and end-of-stream at every read); the dispatch output / stream item must name the activity, every outstanding call must resolve with a connection error, later calls must fail fast, a failed request write fails only its call (no call may be left pending at quiescence and the dispatch may not sit on work until an unrelated wake-up - every idle point after a survived fault gets an unsolicited control poll), handlers must not outlive the dropped channel, nothing may panic.",
       "one fault per run; multi-fault sequences are not enumerated", "DESIGN.md 4/C09")
 claim("C10", "exploration", MON + "wire-order checker for writes/flush/close at the client sink; end-of-stream obligations on the server stream",
-      "Client: queued cancels precede close, Ok(()) only after close, prompt stop and failed calls on peer close. Server: the stream may end only after inbound EOF, with every yielded request ended and all responses flushed, and must end once that holds.",
+      "Client: nothing is handed to the transport after close was first called, queued cancels precede close, Ok(()) only after close, prompt stop and failed calls on peer close. Server: the stream may end only after inbound EOF, with every yielded request ended and all responses flushed, and must end once that holds - also checked at clock-stopped idle points, so that a stream that only ends when an unrelated timer fires is reported. Server channels are built in every shipped way (new / with_defaults, bare or TrackedChannel from max_channels_per_key, limiter from Channel or Incoming) and used in all three documented ways.",
       "handle drop / EOF positions are sampled by the scheduler, not enumerated", "DESIGN.md 4/C10")
 claim("C11", "exploration", MON + "hooked length accessors sampled after every poll + wire-derived certain/possible in-flight counts, long runs",
       "entries == timers after every poll on both ends; client never certainly above max_in_flight_requests on the wire; server in_flight_requests() never above possible, equal to exact at idle points without uncertainty; everything back to zero with the clock stopped once all calls/requests ended by any route; runs of 2500 requests reuse slots.",
@@ -49,7 +49,7 @@ claim("C12", "exploration", MON + "certain/possible in-flight bounds evaluated a
       "A request handed over while certainly >= L are in flight, or refused while possibly < L are (not counting requests the application abandoned before that poll began), is a violation; refused requests must get exactly one throttle response and never run; includes cancel/expiry/response/abandonment followed by a request inside one channel poll.",
       "in-flight counts are bounded from observable events (certainly / possibly in flight); found and repaired F4 and F8", "DESIGN.md 4/C12, 5.1")
 claim("C13", "exploration", MON + "exact alive-set oracle over bounded-exhaustive and random arrival/close/poll sequences",
-      "The harness owns every yielded channel, so the number alive per key is exact at every admit/shed decision; all sequences up to length 7 (quick) / 10 (thorough) over 2 keys and n in {1,2} are enumerated, plus random longer ones over 3 keys and n up to 3.",
+      "The harness owns every yielded channel, so the number alive per key is exact at every admit/shed decision; all sequences up to length 7 (quick) / 10 (thorough) over {arrive, close, poll} x 2 keys and n in {1,2} are enumerated, all up to length 6 / 8 over the same plus take-over (an arrival whose hand-over inside the listener's own poll closes the oldest live channel of its key), plus random longer ones over 3 keys and n up to 3.",
       "sequences beyond the enumerated length are only sampled; found and repaired F1", "DESIGN.md 4/C13, 5.1")
 claim("C14", "exploration", MON + "online sink-contract monitor inside the instrumented transport (readiness credit, write-after-close/failure, idle-with-unflushed, spin detector)",
       "Every Sink/Stream call tarpc makes is checked online on both coupled and independent readiness models, capacities 1..8, with injected faults for the after-failure clause; a transport that refuses a write for which it has no room makes the consequences visible too; the instrumented transport itself is self-tested against a reference sink user.",
@@ -58,21 +58,21 @@ claim("C18", "exploration", MON + "unique trace ids per call compared on the wir
       "Every call carries a unique trace id; wire Request, handler context, nested call and Cancel are compared per call and hop on S-client and S-e2e; span ids must be fresh per hop.",
       "compared without a subscriber and, for the cross-hop clauses, under an OpenTelemetry subscriber", "DESIGN.md 4/C18")
 claim("C19", "exploration", MON + "reference interpreter vs. recorded hook/handler event sequence over bounded-exhaustive hook trees",
-      "All hook trees up to nesting depth 4 (quick) / 5 (thorough) plus random deeper ones are executed through the real combinators and compared event by event with an interpreter written from the property's sentences.",
+      "All hook trees up to nesting depth 4 (quick) / 5 (thorough) plus random deeper ones are executed through the real combinators and compared event by event (whole context tuple: trace id, span id, sampling, deadline; results incl. error kind) with an interpreter written from the property's sentences; hooks are structs or closures depending on their id and each changes one context field; every io::ErrorKind produced by a hook in four placements is also served by a real BaseChannel over JSON and bincode to a real client.",
       "hooks are immediately-ready futures; the context seen by a plain after-hook is not compared", "DESIGN.md 4/C19")
 claim("C20", "exploration", MON + "recording backends under sequential prefixes, real-thread concurrency, adversarial hashers and every retry policy vector up to length 6",
-      "Round-robin balance after every prefix and after real-thread concurrent runs; consistent hash is a function into valid indices for 6 hashers; retry attempt numbering, request identity (Arc pointer), stop point and returned result for every policy vector up to length 6 and every kind of RpcError; Miri tier in thorough.",
+      "Round-robin balance after every prefix and after real-thread concurrent runs; consistent hash is a function into valid indices for 6 hashers; retry attempt numbering, request identity (Arc pointer), stop point, returned result and per-attempt context for every policy vector up to length 6 and every kind of RpcError; Retry composed over RoundRobin (attempts spread evenly); call futures dropped unpolled (not calls) and calls given up while waiting for a backend (calls); Miri tier in thorough.",
       "counter wrap-around (2^64 calls) is out of reach of execution", "DESIGN.md 4/C20")
 
 claim("C15", "exploration", MON + "differential in/out comparison of generated message sequences over every shipped transport with adversarial fragmentation; end-of-stream check; error-kind table check",
-      "Whatever is written at one end must be read at the other, complete, unmodified and in order, for all variants, boundary ids, empty/unicode/64 KiB/1 MiB bodies, every io::ErrorKind the platform can produce, with reads and writes split down to one byte and Pending injected anywhere, ending by drop or by close; optional fields removed from hand-edited JSON; the codec is used exactly as shipped (Bincode::default()).",
-      "real TCP not exercised (in-memory pipe + Unix-socket smoke run)", "DESIGN.md 4/C15")
+      "Whatever is written at one end must be read at the other, complete, unmodified and in order, for all variants, boundary ids, empty/unicode/64 KiB/1 MiB bodies, every io::ErrorKind the platform can produce, with reads and writes split down to one byte and Pending injected anywhere, ending by drop or by close, with reverse traffic after a half-close; both constructors of the serde transport (new with a fresh or a previously used Framed whose read buffer already holds frames, Transport::from); one exchange each over the shipped tcp:: and unix:: listen/connect endpoints with default and non-default framing configuration; optional fields removed from hand-edited JSON; the codec is used exactly as shipped (Bincode::default()).",
+      "real sockets only in smoke exchanges (kernel fragmentation is not controllable); the byte-stream quantifier is approximated by adversarial fragmentation of an in-memory pipe", "DESIGN.md 4/C15")
 claim("C16", "exploration", MON + "panic monitor (catch_unwind around every poll, child-process exit status) under hostile bytes, boundary-valued wire messages and extreme local deadlines, in three subscriber modes",
-      "Mutated encodings against both decoders in both directions (child process), 84 wire-level boundary deadlines with a probe that must still be served, S-server/S-client scenarios with extreme ids and deadlines and duplicate/unknown-id floods under no / fmt / OpenTelemetry subscriber; a stall after an odd-but-well-formed message counts as a violation.",
+      "Mutated encodings against both decoders in both directions (child process); 90 cases of certainly undecodable or truncated frames after 0-3 well-formed ones, which requests(), the limiter at and below its limit, the raw channel stream and the client dispatch must each end with a read error (not a clean end, not silence); 84 wire-level boundary deadlines with a probe that must still be served, S-server/S-client scenarios with extreme ids and deadlines and duplicate/unknown-id floods under no / fmt / OpenTelemetry subscriber; a stall after an odd-but-well-formed message counts as a violation, and so does a request that was in flight when a duplicate of its id arrived and is then aborted before its own deadline.",
       "known finding F7 (DelayQueue insert after >1.18 years without a fired timer) is matched by exact signature", "DESIGN.md 4/C16, 5.1")
 
 claim("C17", "exploration", MON + "generated programs: the real proc macro expands seeded service definitions, rustc compiles them, recording implementors and spying stubs observe every call",
-      "For 48 (quick) / 640 (thorough) generated services per seed every enabled method is called through the generated client over the in-memory transport and through a Stub-based client; the implementor's record (service, method, Debug of all arguments in order, context deadline and trace id) and the caller's result are compared, RequestName::name() is checked, and 10 colliding definitions must each fail to compile.",
+      "For 48 (quick) / 640 (thorough) generated services per seed every enabled method is called through the generated client over the in-memory transport (every other serializable service: over the serde transport, bincode or JSON) and through a Stub-based client; the implementor's record (service, method, Debug of all arguments in order, context deadline and trace id) and the caller's result are compared, RequestName::name() is checked, and 10 colliding definitions must each fail to compile.",
       "programs outside the generator's grammar (generic services, lifetimes, where clauses) are not produced", "DESIGN.md 2.7, 4/C17")
 
 ALL = ["C%02d" % i for i in range(1, 21)]
